@@ -3,7 +3,8 @@ import os, re
 import vlib, e2e, cf_graph
 
 THEOREMS = ["C11_dispatch_finds_target", "C11_dispatch_no_spurious_target", "C11_phi_sequential_equals_parallel", "C11_phi_swap_refuted",
-            "C11_trash_guard_never_true", "C11_flatten_equivalent", "C11_flatten_checked_instance", "C11_flatten_example", "C11_flatten_zero_key_refuted"]
+            "C11_trash_guard_never_true", "C11_pass_preserves_runs", "C11_passes_compose", "C11_flatten_equivalent", "C11_passes_checked_instance",
+            "C11_passes_example", "C11_flatten_zero_key_refuted", "C11_trash_true_guard_refuted"]
 
 DIRECTIVES = {
     "flatten1": "flatten_passes=1",
@@ -12,6 +13,7 @@ DIRECTIVES = {
     "all": "flatten_passes=1 junk_jumps=2 block_splits=3 flatten_hardening=xor,delegate_table",
     "split-max": "block_splits=max junk_jumps=max flatten_passes=1",
     "trash": "flatten_passes=1 trash_blocks=4",
+    "trash-split": "flatten_passes=1 trash_blocks=8 block_splits=2 junk_jumps=0",
 }
 
 FUNCS = '''
@@ -120,6 +122,21 @@ func genericMax[T int | float64](xs []T) T {
 		}
 	}
 	return m
+}
+
+// trash blocks are added before blocks are split: the values of the loop header's phis are computed late in the body
+//garble:controlflow flatten_passes=1 junk_jumps=0 block_splits=2 trash_blocks=8
+func accChain(n int) int {
+	s := 0
+	for i := 0; i < n; i++ {
+		a := i * 3
+		b := a + 7
+		c := b * b
+		d := c % 11
+		e := d + a
+		s = s + e
+	}
+	return s
 }
 
 //garble:controlflow flatten_passes=1 junk_jumps=max block_splits=max
@@ -247,6 +264,7 @@ func main() {
 		fmt.Println("sumSquares", n, sumSquares(n))
 		fmt.Println("closureCounter", n, closureCounter(n))
 		fmt.Println("nested", n, nested(n))
+		fmt.Println("accChain", n, accChain(n))
 	}
 	for _, n := range []int{1, 6, 27, 97} {
 		fmt.Println("collatz", n, collatz(n))
@@ -303,11 +321,13 @@ def run(res, tier, seed, replay):
     ok, msg = vlib.run_translators()
     proofs_ok = ok and vlib.check_proofs(res, "C11", "Properties/C11.v", THEOREMS)
     res.cov["trusted_base"] += vlib.TRUSTED_COMMON + [
-        "Proved: applyFlattening as a graph transformation preserves and reflects every run, for every graph, block bodies, conditions and distinct non-zero keys "
-        "(C11_flatten_equivalent); tied to the code by dumping the real applyFlattening's input and output graphs (injected oracle, SSA built as garble builds it) and "
-        "evaluating the model's flatten on the same input inside Coq (C11_flatten_checked_instance). Also proved: the dispatcher lookup, the phi-lowering condition, the trash guard.",
-        "NOT proved: splitting, junk jumps and trash blocks as graph transformations, the hardening of dispatcher keys, ssa2ast's instruction templates and its reading of a "
-        "block graph (body, phi assignments of the successors, terminator), which the Flatten model assumes; these are exercised by the differential program only.",
+        "Proved: each pass of internal/ctrlflow/transform.go (trash blocks, splitting, junk jumps, flattening with its shuffle) and every sequence of them, as graph "
+        "transformations, preserve and reflect every run, for every graph, every interpretation of the function's instructions and conditions and the parameters the "
+        "pass picks (C11_pass_preserves_runs, C11_passes_compose); tied to the code by dumping the real passes' input and output graphs stage by stage (injected oracle, "
+        "SSA built as garble builds it, read as ssa2ast reads it) and evaluating the model's passes on the same input inside Coq (C11_passes_checked_instance). "
+        "Also proved: the dispatcher lookup, the phi-lowering condition, the trash guard.",
+        "NOT proved: the hardening of dispatcher keys, ssa2ast's instruction templates, and ssa2ast's reading of a block graph (instructions, then the phi assignments of "
+        "the successors in a canonical order, then the terminator), which Model/Passes.v assumes; these are exercised by the differential program only.",
         "differential runs of a function catalogue under several directive parameter sets and seeds against the regular build"]
     res.assumptions = ["a build error (including a garble panic) counts as 'rejected, not silently changed'"]
     try:
@@ -318,7 +338,7 @@ def run(res, tier, seed, replay):
     graph_instances = cf_graph.run(res, garble, tier, seed)
     names = list(DIRECTIVES)
     if tier == "quick":
-        names = ["flatten1", "junk-split", ["flatten2-xor", "all", "split-max", "trash"][seed % 4]]
+        names = ["flatten1", "junk-split", ["flatten2-xor", "all", "split-max", "trash", "trash-split"][seed % 5]]
     env = {"GOGARBLE": "example.com/cf", "GARBLE_EXPERIMENTAL_CONTROLFLOW": "1"}
     caches = e2e.module_cold_caches(garble, "c11", [], env)
     runs, rejected = 0, []
